@@ -1116,6 +1116,7 @@ fn main() {
             let entries: u32 = a[2].parse().unwrap();
             let flags: u32 = a[3].parse().unwrap();
             let with_op = a[4] == "1";
+            let lap = a[4] == "2";
             mark("MARK:setup:begin");
             let r = setup_io_uring(entries, param_flags(flags), 0, 100);
             mark("MARK:setup:end");
@@ -1124,6 +1125,7 @@ fn main() {
                 Ok(mut ring) => {
                     mark("MARK:geom:begin"); // the twin set-up call in here is not the ring's business
                     out.ev(&geometry(&ring, entries, flags));
+                    out.flush();
                     mark("MARK:geom:end");
                     let fd = ring.fd.value();
                     if with_op {
@@ -1139,6 +1141,48 @@ fn main() {
                             }
                             let _ = io_uring_enter(ring.fd, 0, 0, IoUringEnterFlags::IORING_ENTER_GETEVENTS);
                         }
+                    }
+                    if lap {
+                        // one lap over the whole ring: every submission slot (up to the LAST index-array entry) filled once
+                        // with close(<closed descriptor>) numbered 1..n, submitted in one go, every completion reaped
+                        let (n, _, _, _) = ring.verif_ring_geometry();
+                        let mut filled = 0u32;
+                        for k in 1..=n {
+                            match ring.get_next_sqe_slot() {
+                                Some(p) => {
+                                    let e = IoUringSubmissionQueueEntry::new_close(Fd::try_new(BADFD).unwrap(), u64::from(k), IoUringSQEFlags::empty());
+                                    unsafe { p.write(e) };
+                                    filled += 1;
+                                }
+                                None => break,
+                            }
+                        }
+                        let ts = ring.flush_submission_queue();
+                        let er = io_uring_enter(ring.fd, ts, 0, IoUringEnterFlags::IORING_ENTER_GETEVENTS).map_or(-1, |v| v as i64);
+                        let mut seen = vec![0u8; n as usize + 1];
+                        let (mut completed, mut dups, mut unknown, mut bad_res) = (0u32, 0u32, 0u32, 0u32);
+                        let deadline = std::time::Instant::now() + std::time::Duration::from_secs(5);
+                        while completed + dups + unknown < filled && std::time::Instant::now() < deadline {
+                            while let Some((u, res)) = ring.get_next_cqe().map(|c| (c.0.user_data, c.0.res)) {
+                                if u == 0 || u > u64::from(n) {
+                                    unknown += 1;
+                                } else if seen[u as usize] != 0 {
+                                    dups += 1;
+                                } else {
+                                    seen[u as usize] = 1;
+                                    completed += 1;
+                                }
+                                if res != -9 {
+                                    bad_res += 1;
+                                }
+                                if completed + dups + unknown > 3 * n + 16 {
+                                    break;
+                                }
+                            }
+                            let _ = io_uring_enter(ring.fd, 0, 0, IoUringEnterFlags::IORING_ENTER_GETEVENTS);
+                        }
+                        out.ev(&json!({"ev":"lap","n":n,"filled":filled,"to_submit":ts,"enter":er,"completed":completed,"dups":dups,"unknown":unknown,"bad_res":bad_res}));
+                        out.flush();
                     }
                     mark("MARK:drop:begin");
                     drop(ring);
